@@ -57,12 +57,13 @@ def operands(ctx, ka, kb, variant):
         else:
             f = c02._one(fk, R.affine(P0, (t, w), (-F(1, 2), d)), d)
         return (f, K) if fa else (K, f)
-    rows = {('ConvexPolygon', 'ConvexPolygon'): [('square', 'square', None, (0, 1, 0), (1, 0, 0)), ('square', 'square', 8, (1, 1, -1), (0, 0, 1))],
+    rows = {('ConvexPolygon', 'ConvexPolygon'): [('square', 'square', None, (0, 1, 0), (1, 0, 0)), ('square', 'square', 8, (1, 1, -1), (0, 0, 1)),
+                                                 ('wide', 'tall', None, (0, 0, 0), (1, 0, 0))],
             ('ConvexPolyhedron', 'ConvexPolygon'): [('cube', 'square', None, (1, 1, -1), (0, 0, 1)), ('cube', 'tri', 8, (-1, 1, 1), (1, 0, 0))],
             ('ConvexPolyhedron', 'ConvexPolyhedron'): [('cube', 'cube', None, (0, 0, 0), (1, 0, 0)), ('cube', 'cube', None, (0, 0, 0), (1, 1, 1))]}
     sw = (ka, kb) == ('ConvexPolygon', 'ConvexPolyhedron')
     k1, k2 = (kb, ka) if sw else (ka, kb)
-    sa, sb, pb, base, w = rows[(k1, k2)][variant % 2]
+    sa, sb, pb, base, w = rows[(k1, k2)][variant % len(rows[(k1, k2)])]
     t = ctx.param('t')
     oa = c03._obj(k1, sa, 'axis')
     ob = c03._obj(k2, sb, 'axis', perm=pb)
